@@ -514,6 +514,8 @@ FaultOutcomes(cs, fsys, req, aw, views) ==
             \* followed by exactly that many right bytes (the length header keeps the stream in step)
             closedAny \cup UNION { { Outcome(cs, fsys, [k |-> "ReadPrefix", runs |-> o.resp.runs], c) : c \in BOOLEAN }
                                    : o \in { o \in ok : o.resp.k = "Read" } }
+            \* - or the right count, a correct prefix of the bytes, and the connection ends (the data is streamed)
+            \cup { Outcome(cs, fsys, [k |-> "ReadCut", runs |-> o.resp.runs], TRUE) : o \in { o \in ok : o.resp.k = "Read" } }
        [] req.op \in {"READ_FILE_CRITICAL", "READ_CD_2048"} ->
             { Outcome(cs, fsys, [k |-> "RawPrefix", runs |-> o.resp.runs], TRUE) : o \in { o \in ok : o.resp.k \in {"Raw", "RawPrefix"} } }
             \cup closedAny
